@@ -454,18 +454,18 @@ PLANS = {
                 runs=[("syntax", dict(quick=20000, thorough=600000), ["--focus", "C07"]), ("compiler", dict(quick=10000, thorough=300000))],
                 rule="all strings up to length 3 (thorough 4) over 25 syntax symbols x {-,u,v}; generated valid patterns, single-token mutations, random syntax-alphabet strings incl. surrogate code points; 30 adversarially large patterns (10^5..10^6 alternatives / nesting 255,256,257,10^5 / 65535,65536 groups and loops / 30-digit counts / 10^6-char literals / ...) each in a worker process; non-trivial = compiles",
                 technique="Lean 4 proofs about the parser / optimizer / emitter models with every Rust panic site explicit (case classes <= 4, pre-scan totality, …) + exact correspondence of the parser model (accept/reject and IR) + adversarial stream in worker processes"),
-    "C08": dict(proofs=["Proofs.C08", "Proofs.C08Frag", "Proofs.Lemmas.ESGrammarLaws", "Proofs.Lemmas.ParseRegressions", "Proofs.C07"],
+    "C08": dict(proofs=["Proofs.C08", "Proofs.C08Frag", "Proofs.Lemmas.ESGrammarLaws", "Proofs.Lemmas.ParseRegressions", "Proofs.C07"], custom="c07",
                 runs=[("syntax", dict(quick=150000, thorough=3000000), ["--focus", "C08"])],
                 rule="all strings up to length 3 (thorough 4) over 25 syntax symbols x {-,u,v}; generated valid patterns of every flag set (character spellings varied: raw, \\xHH, \\uHHHH, \\u{..}, surrogate pairs, \\cX, control escapes, identity escapes), single-token mutations of them, random strings over the syntax alphabet incl. surrogate code points; every case asked both of Regex::with_flags and of the ES2025 grammar recognizer; non-trivial = compiles",
                 technique="Lean 4 recognizer of the ES2025 Pattern grammar incl. Annex B and early errors (written from ECMA-262 alone, validated against V8 on 10^8 strings) with a proof that it never runs out of fuel + exact correspondence of the parser model (accept/reject and IR) + parser totality theorems (C07) + differential implementation vs recognizer on every generated string"),
-    "C15": dict(proofs=["Proofs.C15"], runs=[], custom="c15",
+    "C15": dict(proofs=["Proofs.C15", "Proofs.ByteSearch"], runs=[], custom="c15",
                 rule="one generated case file ((flags, pattern incl. single-token mutations of valid patterns, haystack, start)) replayed through find_from (optimized and no_opt, backtracking and PikeVM) by binaries built with default / index-positions / prohibit-unsafe / both / utf16 / alloc-only features; non-trivial = the default build finds a match",
                 technique="Lean 4 proof (any two build variants that refine the executor model agree wherever no error site is reachable - by the C06 safety theorem) + replay of one case file through six feature builds"),
-    "C20": dict(proofs=["Proofs.C20", "Proofs.Closure"], fset="pattern", toolchain="+nightly",
+    "C20": dict(proofs=["Proofs.C20", "Proofs.Closure", "Proofs.Final"], fset="pattern", toolchain="+nightly",
                 runs=[("c20", dict(quick=3000, thorough=100000))],
                 rule="(regex from pool/generator, haystack incl. multi-byte text, interleaving of next()/next_back() calls: all-forward, all-backward, 3 random); non-trivial = regex has a match; plus str::find/rfind/contains/matches/rmatches/split/rsplit compared with find_iter",
                 technique="Lean 4 proof of the Searcher/ReverseSearcher contract for the model of RegexSearcher (any interleaving tiles the haystack; Match steps = find_iter) + correspondence on nightly"),
-    "C06": dict(proofs=["Proofs.C06", "Proofs.Certs"], runs=[("engine", dict(quick=30000, thorough=1500000), ["--focus", "C06"]),
+    "C06": dict(proofs=["Proofs.C06", "Proofs.Certs", "Proofs.Final", "Proofs.ByteSearch"], runs=[("engine", dict(quick=30000, thorough=1500000), ["--focus", "C06"]),
                                              ("engine", dict(quick=30000, thorough=1500000), ["--focus", "C06"], {"profile": "checked"})],
                 rule=ENGINE_RULE,
                 technique="Lean 4 proof of a safety invariant of the executor models (no error site reachable, positions in range) + executor tie + range/boundary checks on the implementation"),
@@ -476,20 +476,20 @@ PLANS = {
     "C10": dict(proofs=["Proofs.C10"], runs=[("c10", dict(quick=0, thorough=0))],
                 rule="every code point with a non-trivial case class in either source (quick: all below U+0250 and a quarter of the rest) x {i, iu, iv} x {literal, [c], [^c], (c)\\1} x every member of both classes; \\w \\W [\\w] [\\W] \\b for every such code point; non-trivial = c ≠ d equivalent",
                 technique="Lean 4 kernel evaluation over FOLDS / TO_UPPERCASE regenerated from the source vs ICU 78.2 snapshot, lifted to all code points; engine-level sweep of the same relation"),
-    "C01": dict(proofs=["Proofs.C01", "Proofs.Lower", "Proofs.LowerChain", "Proofs.ESTerm", "Proofs.RoundTrip", "Proofs.Keystone"], custom="c01", runs=[("engine", dict(quick=30000, thorough=600000), ["--focus", "C01"]), ("lower", dict(quick=10000, thorough=200000))],
+    "C01": dict(proofs=["Proofs.C01", "Proofs.Lower", "Proofs.LowerChain", "Proofs.ESTerm", "Proofs.RoundTrip", "Proofs.Keystone", "Proofs.Final"], custom="c01", runs=[("engine", dict(quick=30000, thorough=600000), ["--focus", "C01"]), ("lower", dict(quick=10000, thorough=200000))],
                 rule=ENGINE_RULE,
                 technique="Lean 4 ES2025 specification (laws proved) as executable oracle: spec-vs-implementation differential on generated ASTs"),
-    "C04": dict(proofs=["Proofs.C04", "Proofs.C04Sem", "Proofs.EndToEnd"], runs=[("engine", dict(quick=30000, thorough=1500000), ["--focus", "C04"]),
+    "C04": dict(proofs=["Proofs.C04", "Proofs.C04Sem", "Proofs.EndToEnd", "Proofs.Final", "Proofs.ByteSearch"], runs=[("bytesearch", dict(quick=20000, thorough=500000)), ("engine", dict(quick=30000, thorough=1500000), ["--focus", "C04"]),
                                              ("compiler", dict(quick=20000, thorough=600000))],
                 rule=ENGINE_RULE,
                 technique="Lean 4 proof (prefilter transparency for any admissible scan; byte-scan and lead-byte lemmas) + executor tie + predicate-vs-Arbitrary differential"),
-    "C02": dict(proofs=["Proofs.C02", "Proofs.C02Full", "Proofs.Keystone", "Proofs.Lemmas.KeystoneC02", "Proofs.Certs"], runs=[("engine", dict(quick=30000, thorough=1500000), ["--focus", "C02"])],
+    "C02": dict(proofs=["Proofs.C02", "Proofs.C02Full", "Proofs.Keystone", "Proofs.Lemmas.KeystoneC02", "Proofs.Certs", "Proofs.Final"], runs=[("engine", dict(quick=30000, thorough=1500000), ["--focus", "C02"])],
                 rule=ENGINE_RULE, technique="Lean 4 proofs about the executor models + executor tie (models run on the dumped bytecode, incl. step counts) + implementation differential"),
-    "C03": dict(proofs=["Proofs.C03", "Proofs.Keystone", "Proofs.EndToEnd"], runs=[("engine", dict(quick=30000, thorough=1500000), ["--focus", "C03"]),
+    "C03": dict(proofs=["Proofs.C03", "Proofs.Keystone", "Proofs.EndToEnd", "Proofs.Final"], runs=[("engine", dict(quick=30000, thorough=1500000), ["--focus", "C03"]),
                                  ("compiler", dict(quick=30000, thorough=900000))],
                 rule=ENGINE_RULE + "; compiler tie: per generated pattern the real IR before/after optimization, start predicate and program vs the Lean models, and the IR semantics vs the real first match",
                 technique="Lean 4 proof: every optimizer pass and the whole pipeline preserve the IR semantics (all inputs) + exact correspondence of the optimizer / IR-semantics models with the code + opt-vs-no_opt differential"),
-    "C05": dict(proofs=["Proofs.C05", "Proofs.C05Full", "Proofs.Certs"], runs=[("engine", dict(quick=30000, thorough=1500000), ["--focus", "C05"]),
+    "C05": dict(proofs=["Proofs.C05", "Proofs.C05Full", "Proofs.Certs", "Proofs.Final"], runs=[("engine", dict(quick=30000, thorough=1500000), ["--focus", "C05"]),
                                  ("c05scope", dict(quick=0, thorough=0))],
                 rule=ENGINE_RULE, technique="Lean 4 proofs about the executor models + executor tie (models run on the dumped bytecode, incl. step counts) + implementation differential"),
     "C13": dict(proofs=["Proofs.C13"], runs=[("engine", dict(quick=30000, thorough=1500000), ["--focus", "C13"])],
@@ -497,19 +497,19 @@ PLANS = {
     "C19": dict(proofs=["Proofs.C19"], runs=[("c19", dict(quick=4000, thorough=100000))],
                 rule="(regex, multiset of (haystack,start) queries): sequential results vs 3 random orders on one thread vs 16 threads sharing &Regex and a clone, both executors; non-trivial = query has a match",
                 technique="Lean 4 proof (schedule-independence of per-thread executor state; generated type inventory has no interior mutability) + rustc Send/Sync assertion + thread stress"),
-    "C09": dict(proofs=["Proofs.C09", "Proofs.Closure", "Proofs.Closure2"], runs=[("c09", dict(quick=20000, thorough=400000))],
+    "C09": dict(proofs=["Proofs.C09", "Proofs.Closure", "Proofs.Closure2", "Proofs.Final"], runs=[("c09", dict(quick=20000, thorough=400000))],
                 rule="(pattern from pool/generator, haystack, start, executor); non-trivial = at least one match",
                 technique="Lean 4 proof over the iterator model (parametric in the matcher) + correspondence on attempt tables"),
     "C11": dict(proofs=["Proofs.C11"], runs=[("c11", dict(quick=0, thorough=0))],
                 rule="every (kind, name) of the candidate universe (names of either side, all 2-letter names, mutations); non-trivial = accepted by ICU",
                 technique="Lean 4 kernel evaluation (decide +kernel) over tables regenerated from the source vs ICU 78.2 snapshot"),
-    "C12": dict(proofs=["Proofs.C12", "Proofs.Lower"], runs=[("c12sets", dict(quick=20000, thorough=400000)), ("c12classes", dict(quick=60000, thorough=1500000))],
+    "C12": dict(proofs=["Proofs.C12", "Proofs.Lower"], custom="c07", runs=[("c12sets", dict(quick=20000, thorough=400000)), ("c12classes", dict(quick=60000, thorough=1500000))],
                 rule="(a) random well-formed interval sets over small and full universes x set operation, non-trivial = non-empty operands; (b) /^E$/ for generated class expressions E (legacy brackets; v-mode unions, &&, --, nesting, \\q strings, negation) x flags x every mentioned character, its case partners, range neighbours and mentioned strings with single-edit variants, expected answer from the ES specification model, non-trivial = match",
                 technique="Lean 4 proof of the CodePointSet algebra (all inputs) + correspondence through hook wrappers"),
-    "C16": dict(proofs=["Proofs.C16", "Proofs.Closure", "Proofs.Closure2"], runs=[("c16", dict(quick=2000, thorough=60000))],
+    "C16": dict(proofs=["Proofs.C16", "Proofs.Closure", "Proofs.Closure2", "Proofs.Final"], runs=[("c16", dict(quick=2000, thorough=60000))],
                 rule="(pattern, haystack, match) with named/unnamed/duplicate-named groups; non-trivial = pattern has a named group",
                 technique="Lean 4 proof over the Match accessor model + correspondence"),
-    "C17": dict(proofs=["Proofs.C17", "Proofs.Closure"], runs=[("c17", dict(quick=1500, thorough=50000))],
+    "C17": dict(proofs=["Proofs.C17", "Proofs.Closure", "Proofs.Final"], runs=[("c17", dict(quick=1500, thorough=50000))],
                 rule="(pattern, haystack, template); non-trivial = at least one match and a `$` in the template",
                 technique="Lean 4 proof (template grammar spec = model; splice theorem) + correspondence"),
     "C18": dict(proofs=["Proofs.C18", "Proofs.C18Full"], runs=[("c18", dict(quick=300, thorough=3000))],
@@ -527,6 +527,8 @@ BIG_CASES = [
     ("classnest", 100000, "err"), ("qstrings", 50000, "ok"), ("backrefs", 100000, "ok"), ("named", 70000, "err"),
     ("dupnamed", 3000, "ok"), ("catnest", 250, "ok"), ("altnest", 250, "ok"), ("altnest", 100000, "err"),
     ("countnest", 9, "ok"), ("countnest", 14, "ok"), ("countnest", 40, "ok"), ("countnest", 250, "ok"), ("countnest2", 30, "ok"),
+    ("sibgroups", 1000, "ok"), ("sibnc", 1000, "ok"), ("siblook", 600, "ok"), ("sibclass", 1000, "ok"), ("sibvclass", 1000, "ok"),
+    ("sibvnclass", 1000, "ok"), ("sibvclasstop", 600, "ok"), ("sibquant", 1000, "ok"), ("sibmod", 1000, "ok"),
 ]
 BIG_THOROUGH = [("alt", 1000000, "ok"), ("literal", 5000000, "ok"), ("classranges", 1000000, "ok"), ("backrefs", 1000000, "ok"), ("qstrings", 300000, "ok")]
 
